@@ -13,7 +13,6 @@ from harness.impl import c02_real as R
 from harness.impl import pyast
 
 MODULE = "CddVerif.Properties.C02"
-THEOREMS = []  # filled below (kept next to the Lean file's theorem names)
 
 CFGS = {
     "class": [{"style": s, "edd": e} for s in R.STYLES for e in (False, True)],
@@ -177,12 +176,14 @@ def oracle(fmt, cfg, irj, got_irj, issues=(), in_domain=False):
     iss = {}
     for e, c in issues:
         iss.setdefault(e, set()).add(c)
-    glob = iss.get("*", set())
     base = {"format": fmt, "style": cfg["style"], "style_group": "rest" if cfg["style"] == "rest" else "google/numpydoc", "edd": cfg["edd"],
             "ta": cfg.get("type_annotations"), "kw": cfg.get("kw_only"), "in_domain": in_domain}
 
-    def layer(entry_name):
-        cl = sorted(iss.get(entry_name, set()) | glob)
+    def layer(entry_name, field):
+        cl = set(iss.get(entry_name, set()))
+        if fmt in ("class", "pydantic") and field in ("typ", "default"):
+            cl.discard("missing")  # attributes take type and default from the AnnAssign, whatever the docstring lost
+        cl = sorted(cl)
         return {"layer": "docstring" if cl else "format", "hyp": "+".join(cl)}
 
     out = []
@@ -190,7 +191,8 @@ def oracle(fmt, cfg, irj, got_irj, issues=(), in_domain=False):
     if en != gn:
         kind = "lost" if set(gn) < set(en) else "order" if sorted(en) == sorted(gn) else "other"
         allc = sorted(set().union(*iss.values())) if iss else []
-        out.append((dict(base, entry="param", field="names", to=kind, layer="docstring" if ("keys" in allc) else "format", hyp="+".join(allc)),
+        doc_caused = "order" in allc or "missing" in allc
+        out.append((dict(base, entry="param", field="names", to=kind, layer="docstring" if doc_caused else "format", hyp="+".join(c for c in allc if c in ("order", "missing"))),
                     "parameter names %s, expected %s" % (gn, en)))
     src = dict((k, p) for k, p in irj["params"])
     gd = dict((p[0], p) for p in got["params"])
@@ -198,7 +200,7 @@ def oracle(fmt, cfg, irj, got_irj, issues=(), in_domain=False):
     if (exp["returns"] is None) != (got["returns"] is None):
         rp = irj.get("returns") or {}
         out.append((dict(base, entry="return", field="presence", typ_kind=typ_kind(rp.get("typ")), has_bracket="[" in (rp.get("typ") or ""),
-                         default_kind=default_kind(rp.get("default")), to="lost" if got["returns"] is None else "appeared", **layer("return_type")),
+                         default_kind=default_kind(rp.get("default")), to="lost" if got["returns"] is None else "appeared", **layer("return_type", "presence")),
                     "return entry %s, expected %s" % (got["returns"], exp["returns"])))
     elif exp["returns"] is not None:
         pairs.append(("return", exp["returns"], got["returns"], irj["returns"]))
@@ -206,7 +208,7 @@ def oracle(fmt, cfg, irj, got_irj, issues=(), in_domain=False):
         for field, i in (("typ", 1), ("default", 2), ("doc", 3)):
             if e[i] != g[i]:
                 sig = dict(base, entry=entry, field=field, typ_kind=typ_kind(sp.get("typ")), has_bracket="[" in (sp.get("typ") or ""),
-                           default_kind=default_kind(sp.get("default")), to=to_class(field, e[i], g[i], sp), **default_flags(sp.get("default")), **layer(e[0]))
+                           default_kind=default_kind(sp.get("default")), to=to_class(field, e[i], g[i], sp), **default_flags(sp.get("default")), **layer(e[0], field))
                 out.append((sig, "%s %s: %s came back as %r, expected %r (typ %r, default %s)" % (entry, e[0], field, g[i], e[i], sp.get("typ"), tv(sp.get("default")))))
     return out
 
@@ -214,7 +216,37 @@ def oracle(fmt, cfg, irj, got_irj, issues=(), in_domain=False):
 # ----------------------------------------------------------------------------------------------
 # one case on the real code
 # ----------------------------------------------------------------------------------------------
+class _quiet:
+    """the analysed code prints failed type probes to stderr; keep the check's output clean while it runs"""
+
+    def __enter__(self):
+        import os
+        import sys
+
+        sys.stderr.flush()
+        self.saved = os.dup(2)
+        self.null = os.open(os.devnull, os.O_WRONLY)
+        os.dup2(self.null, 2)
+
+    def __exit__(self, *a):
+        import os
+
+        os.dup2(self.saved, 2)
+        os.close(self.saved)
+        os.close(self.null)
+
+
 def real_case(job):
+    with _quiet():
+        return _real_case(job)
+
+
+def real_parse_source(job):
+    with _quiet():
+        return _real_parse_source(job)
+
+
+def _real_case(job):
     fmt, cfg, ir, docreq = job
     out = {"notes": []}
     names = list(ir["params"]) + ["return_type", "argument_parser"]
@@ -306,10 +338,410 @@ def strip_env(r):
     return {k: v for k, v in r.items() if k != "env"}
 
 
+# ----------------------------------------------------------------------------------------------
+# comparing model and real code on one record
+# ----------------------------------------------------------------------------------------------
+def compare(chk, rec, stats, label):
+    """correspondence of one case: emitted AST (shared flat AST with unparse texts + structured), re-parsed AST, parsed IR.
+    Returns True when the model claims the case (no abstention) and agrees everywhere."""
+    f, r, me, mp = rec["fmt"], rec["real"], rec["m_emit"], rec["m_parse"]
+    case = {"fmt": f, "cfg": rec["cfg"], "ir": rec["irj"]}
+    unsupported = bool(r["notes"])
+    ok = True
+
+    def dis(what, impl, model):
+        nonlocal ok
+        ok = False
+        stats[(label, f, what, "DISAGREE")] += 1
+        chk.disagreement("C02 correspondence (%s): %s" % (label, what), case, impl, model)
+
+    # ---- emit
+    if "error" in me:
+        if me["error"].startswith("unsupported"):
+            stats[(label, f, "emit", "abstain: " + me["error"][13:50])] += 1
+            unsupported = True
+        elif r.get("emit_raises") == me["error"]:
+            stats[(label, f, "emit", "both raise " + me["error"])] += 1
+        elif unsupported:
+            stats[(label, f, "emit", "outside model (noted construct)")] += 1
+        else:
+            dis("emit: model raises %s" % me["error"], r.get("emit_raises", "returns"), me["error"])
+    elif "ok" not in me:
+        raise core.HarnessError("driver: %s" % str(me)[:300])
+    elif "emit_raises" in r:
+        if unsupported:
+            stats[(label, f, "emit", "outside model (noted construct)")] += 1
+        else:
+            dis("emit: real code raises", r["emit_raises"], "returns")
+    else:
+        m = me["ok"]
+        if m["py"] != r["emit_py"] or m["ast"] != r["emit_ast"]:
+            if unsupported:
+                stats[(label, f, "emit", "outside model (noted construct)")] += 1
+            else:
+                dis("emitted AST", {"py": r["emit_py"], "ast": r["emit_ast"]}, {"py": m["py"], "ast": m["ast"]})
+        elif "reparsed" in r and m["reparsed"] != r["reparsed"]:
+            if unsupported:
+                stats[(label, f, "emit", "outside model (noted construct)")] += 1
+            else:
+                dis("re-parsed AST (to_code + ast.parse)", r["reparsed"], m["reparsed"])
+        else:
+            stats[(label, f, "emit", "agree")] += 1
+    # ---- parse (of the REAL re-parsed tree)
+    if "reparsed" not in r:
+        return ok and not unsupported
+    doc_raises = [n for n in r["notes"] if n.startswith("docstring parse raises ")]
+    if doc_raises:
+        exc = doc_raises[0].split()[-1]
+        if r.get("parse_raises") == exc:
+            stats[(label, f, "parse", "docstring layer raises " + exc)] += 1
+        else:
+            dis("parse: docstring layer raises but the parser does not", r.get("parse_raises", "returns"), exc)
+        return False
+    if "error" in mp:
+        if mp["error"].startswith("unsupported") or mp["error"].startswith("unsupported value type"):
+            stats[(label, f, "parse", "abstain: " + mp["error"][13:50])] += 1
+            unsupported = True
+        elif r.get("parse_raises") == mp["error"]:
+            stats[(label, f, "parse", "both raise " + mp["error"])] += 1
+        elif unsupported or has_other(r.get("doc_ir")):
+            stats[(label, f, "parse", "outside model (noted construct)")] += 1
+        else:
+            dis("parse: model raises %s" % mp["error"], r.get("parse_raises", "returns"), mp["error"])
+    elif "ok" not in mp:
+        if has_other(r.get("doc_ir")) or has_other(r.get("parsed")):
+            stats[(label, f, "parse", "abstain: value type outside the codec")] += 1
+            unsupported = True
+        else:
+            raise core.HarnessError("driver: %s" % str(mp)[:300])
+    elif "parse_raises" in r:
+        if unsupported:
+            stats[(label, f, "parse", "outside model (noted construct)")] += 1
+        else:
+            dis("parse: real code raises", r["parse_raises"], "returns")
+    else:
+        a, b = mp["ok"], r["parsed"]
+        same = view(a) == view(b) and a["doc"] == b["doc"] and a["name"] == b["name"] and a["type"] == b.get("type") and \
+            [(k, p.get("doc")) for k, p in a["params"]] == [(k, p.get("doc")) for k, p in b["params"]]
+        if same:
+            stats[(label, f, "parse", "agree")] += 1
+        elif unsupported or has_other(b) or has_other(r.get("doc_ir")):
+            stats[(label, f, "parse", "outside model (noted construct)")] += 1
+        else:
+            dis("parsed IR", b, a)
+    return ok and not unsupported
+
+
+def evaluate(chk, rec, sig_counts, witness_of=None):
+    """the property's oracle on the REAL round trip of one case"""
+    f, c, r, m = rec["fmt"], rec["cfg"], rec["real"], rec["m_dom"]
+    replay = {"fmt": f, "cfg": c, "ir": rec["irj"]}
+    in_dom, hyp, issues = bool(m.get("in")), bool(m.get("hyp")), m.get("issues", [])
+    fails = []
+    if "parsed" not in r:
+        stage = "emit" if "emit_raises" in r else "render" if "render_raises" in r else "parse"
+        exc = r.get(stage + "_raises")
+        doc_caused = stage == "parse" and (bool(issues) or any(n.startswith("docstring parse raises") for n in r["notes"]))
+        rp = rec["irj"].get("returns") or {}
+        sig = {"format": f, "style": c["style"], "style_group": "rest" if c["style"] == "rest" else "google/numpydoc", "edd": c["edd"],
+               "ta": c.get("type_annotations"), "kw": c.get("kw_only"), "in_domain": in_dom, "field": "raises", "stage": stage, "exc": exc,
+               "layer": "docstring" if doc_caused else "format", "return_default_kind": default_kind(rp.get("default")),
+               "return_typ_kind": typ_kind(rp.get("typ")) if rec["irj"].get("returns") else "no-return",
+               "default_kinds": "+".join(sorted({default_kind(p.get("default")) for _, p in rec["irj"]["params"]}))}
+        fails.append((sig, "%s raises %s" % (stage, exc)))
+    else:
+        fails = oracle(f, c, rec["irj"], r["parsed"], issues, in_dom)
+    for sig, text in fails:
+        key = "|".join("%s=%s" % (k, sig.get(k)) for k in ("layer", "format", "style_group", "edd", "entry", "field", "to", "hyp", "exc"))
+        sig_counts[key] = sig_counts.get(key, 0) + 1
+        if in_dom and hyp:
+            # inside the theorem's domain with the docstring-layer hypotheses true: never a known finding
+            sig = dict(sig, theorem_instance=True)
+        chk.failure(sig, "%s %s: %s" % (f, json.dumps(c, sort_keys=True), text), replay)
+    return fails
+
+
+# ----------------------------------------------------------------------------------------------
+# parse-only stream: hand-written sources (signature padding, partially documented, add_argument keyword mixes)
+# ----------------------------------------------------------------------------------------------
+def gen_parse_sources(rng, n):
+    from harness.gen import ir as G0
+
+    out = []
+    for _ in range(n):
+        k = rng.random()
+        ir = G0.gen_ir(rng, nparams=rng.randint(0, 5), none_ok=True, with_return=rng.random() < 0.4)
+        names = list(ir["params"])
+        if k < 0.5:
+            # function: defaults only on a suffix, annotations on ~70 %, a documented subset in any order, maybe a receiver
+            documented = [x for x in names if rng.random() < 0.7]
+            order = documented[:]
+            rng.shuffle(order)
+            src = G0.function_source(rng, ir, documented=documented, doc_order=order)
+            if rng.random() < 0.3:
+                recv = rng.choice(["self", "cls"])
+                src = src.replace("def F(", "def F(%s%s" % (recv, ", " if names else ""), 1)
+            if rng.random() < 0.3 and names:
+                src = src.replace("def F(", "def F(*, ", 1) if "self" not in src and "cls" not in src else src
+            out.append(("function", src))
+        elif k < 0.75:
+            lines = ['class F(object):', '    """', "    " + (ir["doc"].split("\n")[0] or "Do it."), ""]
+            for nm in names:
+                if rng.random() < 0.7:
+                    lines.append("    :cvar %s: %s" % (nm, ir["params"][nm].get("doc", "thing")))
+            lines.append('    """')
+            for nm in names:
+                p = ir["params"][nm]
+                lines.append("    %s: %s%s" % (nm, p["typ"], (" = " + G0.render_default(p["default"])) if "default" in p else ""))
+            if not names:
+                lines.append("    ...")
+            out.append((rng.choice(["class", "pydantic"]), "\n".join(lines) + "\n"))
+        else:
+            lines = ["def set_cli_args(argument_parser):", '    """', "    Set CLI arguments", "", "    :param argument_parser: argument parser",
+                     "    :type argument_parser: ```ArgumentParser```", ""]
+            has_ret = rng.random() < 0.5
+            lines += ["    :return: argument_parser, the thing", "    :rtype: ```Tuple[ArgumentParser, %s]```" % rng.choice(["int", "List[int]", "np.ndarray"])] if has_ret else \
+                ["    :return: argument_parser", "    :rtype: ```ArgumentParser```"]
+            lines += ['    """', "    argument_parser.description = %r" % rng.choice(["", "Summary line.", "Do it."])]
+            for nm in names:
+                kws = []
+                if rng.random() < 0.7:
+                    kws.append("type=%s" % rng.choice(["int", "float", "str", "bool", "complex", "loads"]))
+                if rng.random() < 0.25:
+                    kws.append("choices=%r" % (tuple(rng.sample(G0.MEMBERS, rng.randint(2, 3))),))
+                if rng.random() < 0.2:
+                    kws.append("action='append'")
+                if rng.random() < 0.8:
+                    kws.append("help=%r" % rng.choice(G0.DOCS))
+                if rng.random() < 0.5:
+                    kws.append("required=True")
+                if rng.random() < 0.5:
+                    kws.append("default=%r" % rng.choice([0, 0.0, False, "", 5, -3, 2.5, True, "mnist", None]))
+                lines.append("    argument_parser.add_argument(%s)" % ", ".join(["'--%s'" % nm] + kws))
+            lines.append("    return (argument_parser, %s)" % rng.choice(["K", "np.empty(0)", "(a, b)", "0"]) if has_ret else "    return argument_parser")
+            out.append(("argparse", "\n".join(lines) + "\n"))
+    return out
+
+
+def _real_parse_source(job):
+    fmt, src = job
+    out = {"notes": []}
+    node2 = ast.parse(src).body[0]
+    out["src"] = src
+    out["reparsed"], n2 = R.top_to_json(node2)
+    out["notes"] += n2
+    doc_ir_json = None
+    ds = ast.get_docstring(node2, clean=False)
+    if ds is not None:
+        try:
+            doc_ir_json = R.ir_to_json(R.real_doc_parse(fmt, ds))
+        except Exception as e:  # noqa
+            out["notes"].append("docstring parse raises %s" % type(e).__name__)
+    out["doc_ir"] = doc_ir_json
+    try:
+        out["parsed"] = R.ir_to_json(R.real_parse(fmt, node2))
+    except Exception as e:  # noqa
+        out["parse_raises"] = type(e).__name__
+    names = [a["name"] for a in (out["reparsed"].get("args", {}).get("args", []) + out["reparsed"].get("args", {}).get("kwonly", []))] if out["reparsed"]["k"] == "fn" else []
+    names += [s_["target"] for s_ in out["reparsed"].get("body", []) if s_["k"] == "ann"] + [s_["name"] for s_ in out["reparsed"].get("body", []) if s_["k"] == "add"]
+    if doc_ir_json:
+        names += [k for k, _ in doc_ir_json["params"]]
+    env, n3 = R.build_env(fmt, {"params": {}, "returns": None}, None, doc_ir_json, out["reparsed"], sorted(set(names)) + ["return_type"])
+    out["env"] = env
+    out["notes"] += n3
+    return out
+
+
+# ----------------------------------------------------------------------------------------------
+# witnesses of the known findings (replayed on every run; a witness that stops failing is reported as stale)
+# ----------------------------------------------------------------------------------------------
+def _ir(params, ret=None, typ="static"):
+    return {"name": "F", "type": typ, "doc": "Summary.", "params": [[k, dict({"doc": None, "typ": None, "default": None}, **v)] for k, v in params],
+            "returns": None if ret is None else dict({"doc": None, "typ": None, "default": None}, **ret)}
+
+
+def _v(t, v):
+    return {"t": t, "v": v}
+
+
+REST = {"style": "rest", "edd": False}
+REST_E = {"style": "rest", "edd": True}
+FN = {"style": "rest", "edd": False, "type_annotations": True, "kw_only": False}
+WITNESSES = {
+    "C02-argparse-zero-default": ("argparse", REST, _ir([("n", {"doc": "a count", "typ": "int"})])),
+    "C02-argparse-bool-optional": ("argparse", REST, _ir([("flag", {"doc": "a flag", "typ": "bool"})])),
+    "C02-argparse-nonscalar-str": ("argparse", REST, _ir([("arr", {"doc": "an array", "typ": "np.ndarray"})])),
+    "C02-argparse-union-narrowed": ("argparse", REST, _ir([("x", {"doc": "a value", "typ": "Union[int, float]", "default": _v("int", "0")})])),
+    "C02-argparse-optunion-narrowed": ("argparse", REST, _ir([("x", {"doc": "a value", "typ": "Optional[Union[int, float]]", "default": _v("int", "0")})])),
+    "C02-argparse-none-default-dropped": ("argparse", REST, _ir([("x", {"doc": "a value", "typ": "Optional[int]", "default": _v("str", R.NONE)})])),
+    "C02-argparse-code-default": ("argparse", REST, _ir([("arr", {"doc": "an array", "typ": "List[int]", "default": _v("str", "```foo(3)```")})])),
+    "C02-argparse-return-code-quoted": ("argparse", REST, _ir([], {"doc": "the result", "typ": "List[int]", "default": _v("str", "```foo(3)```")})),
+    "C02-typ-dropped-code-default": ("class", REST, _ir([("arr", {"doc": "an array", "typ": "np.ndarray", "default": _v("str", "```foo(3)```")})])),
+    "C02-fn-return-typ-dropped": ("function", dict(FN, type_annotations=False), _ir([], {"doc": "the result", "typ": "int", "default": _v("str", "K")})),
+    "C02-fn-return-default-code-quoted": ("function", FN, _ir([], {"doc": "the result", "typ": "Tuple[int, int]", "default": _v("str", "(a, b)")})),
+    "C02-complex-binop-default": ("class", REST, _ir([("z", {"doc": "a value", "typ": "complex", "default": _v("complex", "(2.5+1j)")})])),
+    "C02-fn-negative-under-str-type": ("function", FN, _ir([("x", {"doc": "a value", "typ": "Union[str, int]", "default": _v("int", "-3")})])),
+    "C02-doc-fn-default-announcement-kept": ("function", dict(FN, edd=True), _ir([("n", {"doc": "a count", "typ": "int", "default": _v("int", "5")})])),
+    "C02-doc-none-default": ("function", dict(FN, edd=True), _ir([("x", {"doc": "a value", "typ": "Optional[int]", "default": _v("str", R.NONE)})])),
+    "C02-doc-code-default": ("class", REST_E, _ir([("arr", {"doc": "an array", "typ": "List[int]", "default": _v("str", "```np.empty(0)```")})])),
+    "C02-doc-dotted-str-default": ("class", REST_E, _ir([], {"doc": "the result", "typ": "List[int]", "default": _v("str", "np.empty(0)")})),
+    "C02-doc-empty-str-default": ("class", REST_E, _ir([("s", {"doc": "a name", "typ": "str", "default": _v("str", "")})])),
+    "C02-doc-complex-default": ("function", dict(FN, edd=True), _ir([("z", {"doc": "a value", "typ": "complex", "default": _v("complex", "1j")})])),
+    "C02-doc-google-numpydoc-descriptions": ("class", {"style": "numpydoc", "edd": False}, _ir([("n", {"doc": "a count", "typ": "int"})])),
+    "C02-doc-google-numpydoc-fn-types": ("function", {"style": "numpydoc", "edd": False, "type_annotations": False, "kw_only": False}, _ir([("n", {"doc": "a count", "typ": "int"})])),
+    "C02-doc-google-numpydoc-fn-return": ("function", {"style": "numpydoc", "edd": False, "type_annotations": False, "kw_only": False}, _ir([("n", {"doc": "a count", "typ": "int"})], {"doc": "the result", "typ": "int"})),
+    "C02-doc-google-numpydoc-argparse-return": ("argparse", {"style": "google", "edd": False}, _ir([], {"doc": "the result", "typ": "int", "default": _v("str", "K")})),
+}
+
+
+def witness_cases():
+    return [(f, c, R.json_to_ir(j)) for f, c, j in WITNESSES.values()]
+
+
+THEOREMS = []
+
+
 def run(chk: core.Check) -> int:
+    import collections
+
     chk.lean(MODULE, THEOREMS)
-    return chk.finish("todo")
+    chk.trusted_base += [
+        "model lean/CddVerif/Model/Iface{IR,Emit,Parse,Domain}.lean: the four emitters, the render/re-read step (negative numbers become UnaryOp) and the three parsers, ported decision by decision; tied to /repo by comparing, per case, the emitted AST (shared flat AST with ast.unparse texts and a structured form), the re-parsed AST and the parsed IR",
+        "the docstring layer (cdd.docstring.emit/parse, extract_default, parse_adhoc_doc_for_typ — property C01) and CPython's expression parser are PARAMETERS of the model (Iface.Env); the theorems assume the stated decidable hypotheses about their answers (Iface.docHyp); the driver evaluates those hypotheses on the real layer's answers for every case and the evidence counts how often they hold",
+        "type strings are modelled as strings: `in simple_types`, `startswith('Optional[')`, `'[' in typ`, needs_quoting (identifier token `str` or a quote character), ast.walk name order = textual order; checked against the real predicates on every generated type (op c02.types)",
+        "ast.unparse of constants (repr of str/int, float/complex carried as their repr), textwrap.fill = identity on the generated one-line descriptions",
+    ]
+    rng = chk.rng
+    stats = collections.Counter()
+    sig_counts = {}
+    # ---- (0) string / type primitives ---------------------------------------------------------------------------
+    n_prim = prim_correspondence(chk, rng)
+    # ---- (1) witnesses of the known findings -------------------------------------------------------------------
+    wrecs = run_cases(chk, witness_cases(), "witness")
+    for wid, rec in zip(WITNESSES, wrecs):
+        compare(chk, rec, stats, "witness")
+        before = {k: v["count"] for k, v in chk.known_seen.items()}
+        fails = evaluate(chk, rec, sig_counts)
+        hit = chk.known_seen.get(wid, {}).get("count", 0) > before.get(wid, 0)
+        if not hit:
+            chk.notes.append("witness of %s no longer fails with its signature (stale finding?) — %d failures" % (wid, len(fails)))
+    # ---- (2) main stream: generated interfaces x all configurations ---------------------------------------------
+    n_ir = 110 if chk.quick else 2200
+    cases = gen_cases(rng, n_ir)
+    recs = []
+    B = 4200
+    for i in range(0, len(cases), B):
+        recs += run_cases(chk, cases[i:i + B], "main")
+    cov = collections.Counter()
+    n_claimed = n_thm = n_hyp = n_in = 0
+    for k, rec in enumerate(recs):
+        claimed = compare(chk, rec, stats, "main")
+        fails = evaluate(chk, rec, sig_counts)
+        m = rec["m_dom"]
+        in_dom, hyp = bool(m.get("in")), bool(m.get("hyp"))
+        if hyp != (not m.get("issues")):
+            chk.notes.append("docHyp and docIssues disagree on a case: %s" % json.dumps({"fmt": rec["fmt"], "cfg": rec["cfg"], "ir": rec["irj"]})[:300])
+        n_claimed += claimed
+        n_in += in_dom
+        n_hyp += hyp
+        if in_dom and hyp:
+            n_thm += 1
+            # the theorem's instance, evaluated with the compiled model on the real layer's answers
+            mp = rec["m_parse"]
+            if claimed and "ok" in mp and view(mp["ok"]) != view(norm_expected(rec["fmt"], rec["irj"])):
+                chk.disagreement("C02 theorem instance: model round trip differs from norm(ir) inside D02 with the hypotheses true",
+                                 {"fmt": rec["fmt"], "cfg": rec["cfg"], "ir": rec["irj"]}, view(norm_expected(rec["fmt"], rec["irj"])), view(mp["ok"]))
+        chk.count((rec["fmt"], json.dumps(rec["cfg"], sort_keys=True), json.dumps(rec["irj"], sort_keys=True)), in_dom and hyp and claimed)
+        cov[("format", rec["fmt"])] += 1
+        cov[("domain", rec["fmt"], rec["cfg"]["style"], "in D02" if in_dom else "outside D02", "doc-layer hypotheses hold" if hyp else "doc-layer hypotheses fail")] += 1
+        for _, p in rec["irj"]["params"]:
+            if rec["fmt"] == "class" and rec["cfg"] == CFGS["class"][0]:
+                fl = default_flags(p.get("default"))
+                cov[("param", typ_kind(p["typ"]), default_kind(p.get("default")) + ("/falsy" if fl["falsy"] else "") + ("/neg" if fl["neg"] else ""))] += 1
+        if k < 3:
+            chk.sample({"fmt": rec["fmt"], "cfg": rec["cfg"], "ir": rec["irj"], "src": rec["real"].get("src"), "parsed_view": view(rec["real"]["parsed"]) if "parsed" in rec["real"] else None,
+                        "in_D02": in_dom, "doc_hyp": hyp, "failures": [t for _, t in fails][:3]})
+    # ---- (3) parse-only stream -----------------------------------------------------------------------------------
+    srcs = gen_parse_sources(rng, 400 if chk.quick else 6000)
+    preals = core.pmap(real_parse_source, srcs, chunksize=32)
+    pmodels = core.model_batch([{"op": "c02.parse", "fmt": f, "ast": r["reparsed"], "env": r["env"]} for (f, _), r in zip(srcs, preals)])
+    for (f, src), r, mp in zip(srcs, preals, pmodels):
+        rec = {"fmt": f, "cfg": {"source": src}, "irj": None, "real": dict(r, emit_py=None, emit_ast=None), "m_emit": {"error": "unsupported: parse-only"}, "m_parse": mp}
+        compare(chk, rec, stats, "parse-only")
+        chk.count(("parse-only", f, src), False)
+    # ---- (4) outside the domain: descriptions with ad-hoc type triggers (correspondence only) --------------------
+    tcases = gen_cases(rng, 12 if chk.quick else 150, trigger_docs=True)
+    for rec in run_cases(chk, tcases, "triggers"):
+        compare(chk, rec, stats, "triggers")
+        chk.count(("trigger", rec["fmt"], json.dumps(rec["cfg"], sort_keys=True), json.dumps(rec["irj"], sort_keys=True)), False)
+    n_dis = sum(v for k, v in stats.items() if k[-1] == "DISAGREE")
+    n_agree = sum(v for k, v in stats.items() if k[-1] == "agree" or k[-1].startswith("both raise") or k[-1].startswith("docstring layer raises"))
+    chk.oblige("correspondence: real emitters/parsers = Iface.emit / Top.reparse / Iface.parse on %d generated cases + %d hand-written sources + %d trigger cases + %d witnesses "
+               "(emitted AST, re-parsed AST, parsed IR)" % (len(recs), len(srcs), len(tcases), len(WITNESSES)), "correspondence", n_dis == 0,
+               "%d disagreements; %d stage agreements; %d cases fully claimed by the model" % (n_dis, n_agree, n_claimed))
+    chk.coverage["correspondence_outcomes"] = {" | ".join(k): v for k, v in sorted(stats.items())}
+    chk.coverage["input_distribution"] = {" | ".join(k): v for k, v in sorted(cov.items())}
+    chk.coverage["real_round_trip_failure_signatures"] = dict(sorted(sig_counts.items()))
+    chk.coverage["theorem_instances"] = {"cases in D02": n_in, "cases with the docstring-layer hypotheses true": n_hyp, "both (theorem applies)": n_thm,
+                                         "primitive comparisons": n_prim}
+    return chk.finish("generated signature-legal interfaces (0-5 parameters; scalar / complex / Optional / Union / Optional[Union] / List / Literal / dotted types; int, float, bool, str, "
+                      "complex, None and code defaults with ~45 % falsy values; return entries with and without a source default; static / self / cls) x 4 formats x 3 docstring styles x "
+                      "emit_default_doc x (type annotations, kw-only) for functions: real emit -> to_code -> ast.parse -> real parse; oracle = names, order, types, typed defaults, "
+                      "descriptions (whitespace / terminal full stop) against the interface under the statement's two normalisations only; non-trivial = inside D02 with the docstring-layer "
+                      "hypotheses true on the real layer and every stage claimed by the model")
+
+
+def prim_correspondence(chk, rng):
+    """needs_quoting / simple_types / ast.walk name order / string helpers against the real functions"""
+    from cdd.shared.defaults_utils import needs_quoting
+    from cdd.shared.pure_utils import code_quoted, paren_wrap_code, quote, simple_types, unquote
+    from cdd.shared.ast_utils import set_value
+
+    types = set()
+    for _ in range(600):
+        types.add(G.gen_typ(rng)[0])
+    types |= {"str", "Optional[str]", "List[str]", "Dict[str, int]", "strict", "np.str_", "Optional[Literal['a', 'b']]", "Tuple[int, int]", "Any", "object", "dict"}
+    types = sorted(types)
+    strs = sorted(set(G.STRS + G.MORE_DOCS + G.TRIGGER_DOCS + G.RET_CODES + G.CODES + ["'x'", '"x"', "''", '""', "'", "a'b", 'a"b', "it's \"x\"", "a\\b", "tab\there", "line\nbreak  two ", "``", "```x```", "```abc",
+                                                                                      "```(None)```", "  lead", "trail.  ", "dots..", ".", "", "(a)", "[1]", "{}", "a.b", "Optional x", "(Optional) y", "é ü", "x" * 120]))
+    res = core.model_batch([{"op": "c02.types", "typ": t} for t in types] + [{"op": "c02.str", "s": x} for x in strs])
+    bad = 0
+    for t, m in zip(types, res[:len(types)]):
+        tree = ast.parse(t).body[0].value
+        names = [n.id for n in ast.walk(tree) if isinstance(n, ast.Name)]
+        consts = [n.value for n in ast.walk(tree) if isinstance(n, ast.Constant) and isinstance(n.value, str)]
+        exp = {"needs_quoting": bool(needs_quoting(t)), "names": names, "consts": consts, "simple": t in simple_types}
+        if m != exp:
+            bad += 1
+            chk.disagreement("C02 correspondence: type-string predicates", t, exp, m)
+    for x, m in zip(strs, res[len(types):]):
+        exp = {"repr": repr(x), "quote": quote(x), "unquote": unquote(x), "set_value": set_value(x).value, "code_quoted": bool(code_quoted(x)), "tidy": R.tidy(x),
+               "norm": norm_doc(x), "strip_ticks": x.strip("`"), "paren_wrap": paren_wrap_code(x) if x else x}
+        if m != exp:
+            bad += 1
+            chk.disagreement("C02 correspondence: string helpers", x, exp, m)
+    chk.oblige("correspondence: needs_quoting / simple_types / ast.walk name order / repr, quote, unquote, set_value, code_quoted, paren_wrap_code, tidy, normDoc on %d types and %d strings"
+               % (len(types), len(strs)), "correspondence", bad == 0, "%d disagreements" % bad)
+    return len(types) + len(strs)
 
 
 def replay(path: str) -> int:
-    return 2
+    d = json.loads(Path(path).read_text())
+    rp = d.get("replay")
+    if not rp:
+        print("replay: no concrete input in", path)
+        return 2
+    chk = core.Check("C02", "quick", 0)
+    recs = run_cases(chk, [(rp["fmt"], rp["cfg"], R.json_to_ir(rp["ir"]))], "replay")
+    rec = recs[0]
+    import collections
+
+    compare(chk, rec, collections.Counter(), "replay")
+    fails = evaluate(chk, rec, {})
+    print("replay %s %s" % (rp["fmt"], json.dumps(rp["cfg"], sort_keys=True)))
+    print(rec["real"].get("src"))
+    for sig, text in fails:
+        print("FAIL:", text, "|", json.dumps({k: sig[k] for k in ("layer", "field", "to", "hyp") if k in sig}))
+    unlisted = [v for v in chk.violations]
+    print("unlisted failures: %d, correspondence broken: %d" % (len(unlisted), len(chk.broken)))
+    return 1 if unlisted or chk.broken else 0
